@@ -37,6 +37,7 @@ import ast
 from typing import Dict, List, Tuple
 
 from engines import c0506facts as cf
+from engines import c05submit as cs
 from engines import jobgraphfacts as jg
 from engines import pyfacts as pf
 from engines import sqlfront as sf
@@ -60,67 +61,145 @@ STATES = ['Pending', 'Ready', 'Creating', 'Running', 'Success', 'Failed', 'Error
 TERMINAL = {'Success', 'Failed', 'Error', 'Cancelled'}
 
 
+_submission = None
+
+
+def submission() -> cs.Submission:
+    global _submission
+    if _submission is None:
+        _submission = cs.Submission()
+    return _submission
+
+
 def r1(ctx: Ctx) -> None:
-    m = pf.load('batch/batch/front_end/front_end.py')
-    fn = m.func('_create_jobs')
-    ifs = [n for n in pf.walk_shallow(fn) if isinstance(n, ast.If) and any(isinstance(s, ast.Assign) and pf.nsrc(s.targets[0]) == 'state' and pf.const_str(s.value) == 'Ready' for s in n.body)]
-    ctx.need(len(ifs) == 1, '_create_jobs: branch assigning state = Ready not found exactly once')
-    br = ifs[0]
-    cons = f'{m.rel}::_create_jobs'
-    def norm_atom(a: ast.expr) -> str:
-        # single-definition locals standing for an operand are followed (n = len(parent_ids); if update_id == 1 and n == 0), `not parent_ids` is the empty test
-        if isinstance(a, ast.UnaryOp) and isinstance(a.op, ast.Not) and pf.nsrc(pf.resolve_expr(fn, a.operand)) == 'parent_ids':
-            return 'len(parent_ids) == 0'
-        if isinstance(a, ast.Name):
-            a = pf.resolve_expr(fn, a)
-        if isinstance(a, ast.Compare) and len(a.ops) == 1 and isinstance(a.ops[0], ast.Eq):
-            l, r_ = (x if pf.nsrc(x) == 'parent_ids' else pf.resolve_expr(fn, x) for x in (a.left, a.comparators[0]))
-            if isinstance(l, ast.Constant) and not isinstance(r_, ast.Constant):
-                l, r_ = r_, l
-            return f'{pf.nsrc(l)} == {pf.nsrc(r_)}'
-        return pf.nsrc(a)
-    atoms = sorted(norm_atom(v) for v in (br.test.values if isinstance(br.test, ast.BoolOp) and isinstance(br.test.op, ast.And) else [br.test]))
-    ctx.check(atoms == ['len(parent_ids) == 0', 'update_id == 1'], 'R1', cons + '::Ready condition',
-              f'a job is inserted Ready when `{pf.nsrc(br.test)}`; it must require both "no parents" and "first update" (later updates may depend on running jobs of earlier ones)', m.path, br.lineno)
-    other = [pf.const_str(s.value) for s in ast.walk(fn) if isinstance(s, ast.Assign) and pf.nsrc(s.targets[0]) == 'state' and pf.const_str(s.value) is not None]
-    ctx.check(sorted(other) == ['Pending', 'Ready'], 'R1', cons + '::initial states', f'initial job states assigned: {sorted(other)}', m.path, br.lineno)
-    # jobs row: n_pending_parents <- len(parent_ids); job_parents rows
-    jobs_tuple = None
-    parents_append = []
-    for n in pf.walk_shallow(fn):
-        if isinstance(n, ast.Call) and pf.dotted(n.func) == 'jobs_args.append' and isinstance(n.args[0], ast.Tuple):
-            jobs_tuple = n.args[0]
-        if isinstance(n, ast.Call) and pf.dotted(n.func) == 'job_parents_args.append':
-            parents_append.append(n)
-    embs = {}
-    for e in sf.embedded_in(m):
-        if e.qual.startswith('_create_jobs'):
-            for st in e.stmts():
-                if st.kind == 'insert':
-                    embs[st.table.lower()] = (e, st)
-    ctx.need(jobs_tuple is not None and 'jobs' in embs and 'job_parents' in embs, '_create_jobs: jobs / job_parents inserts not found')
-    je, jst = embs['jobs']
-    ctx.need(jst.cols is not None and len(jst.cols) == len(jobs_tuple.elts), '_create_jobs: jobs insert arity')
-    jmap = {c.lower(): pf.nsrc(pf.resolve_expr(fn, x) if isinstance(x, ast.Name) and x.id != 'parent_ids' else x) for c, x in zip(jst.cols, jobs_tuple.elts)}
-    ctx.check(jmap.get('n_pending_parents') == 'len(parent_ids)', 'R1', cons + '::n_pending_parents', f'n_pending_parents column receives `{jmap.get("n_pending_parents")}`, expected len(parent_ids)', m.path, jobs_tuple.lineno)
-    ok = len(parents_append) == 1
-    if ok:
-        call = parents_append[0]
-        loops = [p for p in sr.enclosing_loops(m, call)]
-        ok = bool(loops) and pf.nsrc(loops[0].iter) == 'parent_ids' and isinstance(call.args[0], ast.Tuple) and \
-            [pf.nsrc(x) for x in call.args[0].elts] == ['batch_id', 'job_id', pf.nsrc(loops[0].target)] and not sr.enclosing_ifs(m, call, stop=loops[0]) and \
-            not any(isinstance(x, (ast.Continue, ast.Break, ast.Return)) for x in pf.walk_shallow(loops[0]))
-    pe, pst = embs['job_parents']
-    ok = ok and [c.lower() for c in (pst.cols or [])] == ['batch_id', 'job_id', 'parent_id'] and pf.nsrc(pe.call.args[1]) == 'job_parents_args' and pe.method == 'execute_many'
-    ctx.check(ok, 'R1', cons + '::job_parents rows', 'not every id in parent_ids produces a (batch_id, job_id, parent_id) row in job_parents (a missing edge lets a child start before that parent)', m.path, pe.lineno)
+    """Submission site, decided on the function with its module-level helpers inlined (engines/c05submit.py).  Nothing is matched by name:
+    the jobs / job_parents rows are found through the INSERT statements they are passed to, the parent list is the iterable of the
+    job_parents rows, `first update` is a comparison of whatever feeds jobs.update_id with 1.  The per-job effect is a truth table over the
+    atoms (first update?, absolute parent list empty?, in-update parent list empty?, + opaque atoms): a FAIL needs a valuation of the
+    known atoms under which the violation occurs whatever the opaque ones are; otherwise the rule declines."""
+    S = submission()
+    m, fn = S.m, S.fn
+    cons = f'{S.m0.rel}::_create_jobs'
+    path = S.m0.path
+    declines: List[str] = []
+    pe, pst = S.need_insert('job_parents')
+    je, jst = S.need_insert('jobs')
+    prow = S.rows('job_parents')
+    jl = S.job_loop()
+    jrow = jl.row
+    ctx.need({'state', 'n_pending_parents', 'update_id', 'job_id', 'batch_id'} <= set(jrow), f'_create_jobs: the jobs insert does not bind state / n_pending_parents / update_id / job_id / batch_id (columns {sorted(jrow)})')
+    # ---- job_parents rows ------------------------------------------------------------------------------------------------
+    rows_len = None
+    pkeys: List[str] = []
+    rows_bad = None
+    if prow.problem:
+        it = prow.chunk_iter
+        desc = cs.one_shot_iterator(m, it[0], it[1]) if it is not None else None
+        txn = cs.runs_in_retried_transaction(m, pe.fn)
+        created_outside = it is not None and isinstance(it[1], ast.Name) and cs.binding_scope(m, pe.fn, it[1].id) is not pe.fn
+        if desc is not None and txn is not None and created_outside:
+            rows_bad = (f'the rows of the job_parents insert are drawn from {desc}, created once outside `{m.qualname(pe.fn)}`, which runs inside the transaction `{txn}`: '
+                        'when the transaction body is re-run after a transient MySQL error (deadlock, lost connection) the iterator is already exhausted and the jobs are committed WITHOUT their '
+                        'job_parents rows - at the commit of a later update they are recounted to 0 pending parents and become Ready while their parents are still running', pe.lineno)
+        else:
+            declines.append(f'_create_jobs: rows of the job_parents insert: {prow.problem}')
+    else:
+        pmap = S.colmap('job_parents')
+        ctx.need(set(pmap) == {'batch_id', 'job_id', 'parent_id'} and pe.method == 'execute_many', f'_create_jobs: the job_parents insert does not bind exactly (batch_id, job_id, parent_id) through execute_many (columns {sorted(pmap)})')
+        ctx.need(len(prow.binders) == 2 and prow.binders[0][2] is jl.loop and isinstance(prow.binders[1][0], ast.Name),
+                 '_create_jobs: the job_parents rows are not produced by one loop / comprehension over a parent list inside the loop over the job specs')
+        ptarget, piter, _ = prow.binders[1]
+        same = {c: pf.nsrc(jl._root(pmap[c])) == pf.nsrc(jl._root(jrow[c])) for c in ('batch_id', 'job_id')}
+        if isinstance(pmap['parent_id'], ast.Name) and pmap['parent_id'].id == ptarget.id and all(same.values()):
+            pass
+        elif isinstance(pmap['job_id'], ast.Name) and pmap['job_id'].id == ptarget.id and pf.nsrc(jl._root(pmap['parent_id'])) == pf.nsrc(jl._root(jrow['job_id'])) and same['batch_id']:
+            rows_bad = (f'the job_parents rows are ({", ".join(pf.nsrc(x) for x in prow.elts)}) for columns ({", ".join(pst.cols)}): job and parent are swapped, the edge points the wrong way '
+                        '(the parent waits for the child; the child is never decremented)', pe.lineno)
+        else:
+            declines.append(f'_create_jobs: the job_parents rows ({", ".join(pf.nsrc(x) for x in prow.elts)}) are not recognisably (batch, this job, the iterated parent id)')
+        summ = jl.list_summary(piter)
+        if summ is None:
+            declines.append(f'_create_jobs: the list iterated for the job_parents rows, `{pf.nsrc(piter)[:60]}`, is not a recognised combination of the request\'s parent-id lists')
+        else:
+            hard = [l for l in summ.losses if not l[0].startswith('dedup')]
+            if hard and rows_bad is None:
+                rows_bad = (f'not every parent id produces a (batch_id, job_id, parent_id) row in job_parents: {hard[0][1]} (a missing edge lets a child start before that parent)', getattr(hard[0][2], 'lineno', pe.lineno))
+            pkeys = sorted(summ.keys())
+            rows_len = jl.list_length(piter)
+        filt = [(t, pol, k) for t, pol, k in prow.conds if k != 'raise']
+        for t, pol, k in filt:
+            if ptarget.id in pf.names_in(t) and rows_bad is None:
+                mem = cf.ListEval(m, fn)._dedup_test(t, ptarget.id, positive=pol)
+                if mem is not None:
+                    declines.append(f'_create_jobs: the job_parents rows are de-duplicated through `{mem}` while they are appended: count vs rows not decided')
+                else:
+                    rows_bad = (f'a job_parents row is only written when `{"" if pol else "not "}{pf.nsrc(t)[:80]}`: the other parents get no edge although they are counted in n_pending_parents '
+                                '(the child is never decremented for them - or, uncounted, starts before they finish)', getattr(t, 'lineno', pe.lineno))
+            elif rows_bad is None:
+                declines.append(f'_create_jobs: the job_parents rows are appended under the condition `{pf.nsrc(t)[:60]}`')
+    if rows_bad is not None:
+        ctx.bad('R1', cons + '::job_parents rows', rows_bad[0], path, rows_bad[1])
+    elif not declines:
+        ctx.ok('R1', cons + '::job_parents rows', {'parents': pkeys, 'rows': repr(rows_len)})
+    # ---- Ready condition / initial states ----------------------------------------------------------------------------------
+    extra = [cs.A_FIRST] + [cs.a_empty(k) for k in pkeys]
+
+    def no_parents(kv: Dict[str, bool]) -> bool:
+        return all(kv.get(cs.a_empty(k), False) for k in pkeys)
+
+    def v_ready(o: cs.Outcome, kv: Dict[str, bool]):
+        if o.values.get('state') == 'Ready' and not (kv.get(cs.A_FIRST, False) and no_parents(kv)):
+            why = []
+            if not kv.get(cs.A_FIRST, False):
+                why.append('in an update other than the first (its parents of earlier updates may still be running; the commit-time recount is what makes such a job Ready)')
+            if not no_parents(kv):
+                why.append('although it names parents in ' + ' / '.join(repr(k) for k in pkeys if not kv.get(cs.a_empty(k), False)))
+            return f'a job is inserted Ready {" and ".join(why)} [case: {cs.describe(kv)}]; it must require both "no parents" and "first update"'
+        return None
+
+    def v_states(o: cs.Outcome, kv: Dict[str, bool]):
+        st = o.values.get('state')
+        if st is not cs.UNKNOWN and st not in ('Ready', 'Pending'):
+            return f'a job is inserted in state {st!r} [case: {cs.describe(kv)}]; a new job is Ready or Pending'
+        return None
+    if pkeys or not declines:
+        unknown_state = [o for o in jl.outcomes if not o.rejected and o.values.get('state') is cs.UNKNOWN]
+        for key, viol in (('::Ready condition', v_ready), ('::initial states', v_states)):
+            definite, possible = jl.judge(viol, extra)
+            if definite is not None:
+                ctx.bad('R1', cons + key, definite[1], path, getattr(jl.row_site, 'lineno', 0))
+            elif possible is not None:
+                declines.append(f'_create_jobs: {possible[1]} - but only for a particular outcome of {sorted(jl.opaque.values())[:3]}, which the analysis cannot relate to the parents / the update')
+            elif unknown_state:
+                declines.append(f'_create_jobs: the state inserted for a job is `{pf.nsrc(cs.strip_markers(unknown_state[0].exprs["state"]))[:60]}`, not a constant the analysis can follow')
+            else:
+                ctx.ok('R1', cons + key, {'cases': len(jl.outcomes)})
+    # ---- n_pending_parents == number of rows -----------------------------------------------------------------------------------
+    if rows_len is not None:
+        def v_count(o: cs.Outcome, kv: Dict[str, bool]):
+            if o.count is None:
+                return None
+            verdict, msg = cs.compare_lengths(o.count, rows_len)
+            return f'n_pending_parents receives `{pf.nsrc(cs.strip_markers(o.exprs["n_pending_parents"]))[:80]}` [case: {cs.describe(kv)}]: {msg}; a surplus is never decremented (the job stays Pending for ever), a deficit makes the job Ready while a parent is still running' if verdict == 'differs' else None
+        definite, possible = jl.judge(v_count, extra)
+        undecided = [o for o in jl.outcomes if not o.rejected and (o.count is None or cs.compare_lengths(o.count, rows_len)[0] == 'unknown')]
+        if definite is not None:
+            ctx.bad('R1', cons + '::n_pending_parents', definite[1], path, getattr(jl.row_site, 'lineno', 0))
+        elif possible is not None or undecided:
+            o = (undecided or [possible[0]])[0]
+            declines.append(f'_create_jobs: n_pending_parents receives `{pf.nsrc(cs.strip_markers(o.exprs["n_pending_parents"]))[:60]}`: not comparable with the number of job_parents rows ({rows_len!r})')
+        else:
+            ctx.ok('R1', cons + '::n_pending_parents', {'count': repr(rows_len)})
     # the stored count is the LENGTH of the list while the rows are keyed (batch_id, job_id, parent_id): the two agree only because a repeated parent id is
     # rejected by the primary key.  An insert that tolerates the duplicate (IGNORE / ON DUPLICATE KEY / REPLACE) stores fewer edges than the count:
     # the surplus is never decremented and the child never becomes Ready.
     strict = not getattr(pst, 'ignore', False) and not getattr(pst, 'replace', False) and not getattr(pst, 'on_dup', None)
     ctx.check(strict, 'R1', cons + '::count equals rows', 'the job_parents insert tolerates a repeated parent id (IGNORE / REPLACE / ON DUPLICATE KEY) while n_pending_parents counts the list with repeats: '
-              'a job submitted with parent_ids [p, p] gets n_pending_parents = 2 but one edge, is decremented once when p finishes and stays Pending for ever', m.path, pe.lineno)
-    # parent_ids is what the dependency count and the rows are both derived from: same variable in the Ready test
+              'a job submitted with parent_ids [p, p] gets n_pending_parents = 2 but one edge, is decremented once when p finishes and stays Pending for ever', path, pe.lineno)
     ctx.unit('submission_sites', 1)
+    ctx.unit('submission_truth_table_cases', len(jl.outcomes))
+    if declines:
+        raise AnalysisError(declines[0])
 
 
 def _show(v: object) -> str:
@@ -333,7 +412,7 @@ def r4(ctx: Ctx, prog: sf.SqlProgram) -> None:
         m = pf.load(rel)
         fn = m.func(q)
         what = f'{rel}::{q}'
-        F = cf.scheduler_facts(m, fn, what)
+        F = cf.scheduler_facts(m, fn, what, guard_clauses=True)
         lv = F.loop_var
         flag_src = f"{lv}['{F.flag_col}']" if F.flag_col is not None and F.walk_ok else None
         covered_must = set()
@@ -392,24 +471,23 @@ def r5(ctx: Ctx) -> None:
     job index into the job id."""
     fm = pf.load('batch/batch/front_end/front_end.py')
     vm = pf.load('batch/batch/front_end/validate.py')
-    fn = fm.func('_create_jobs')
+    fm.func('_create_jobs')
     findings = []
-    # (b) what feeds the rows and the count
+    # (b) what feeds the rows and the count: found through the INSERT statements (no local names), on the function with its helpers inlined
+    S = submission()
+    prow = S.rows('job_parents')
+    jl = S.job_loop()
     rows_iter = count_arg = None
-    for n in pf.walk_shallow(fn):
-        if isinstance(n, ast.Call) and pf.dotted(n.func) == 'job_parents_args.append':
-            loops = sr.enclosing_loops(fm, n)
-            if loops:
-                rows_iter = loops[0].iter
-        if isinstance(n, ast.Call) and pf.dotted(n.func) == 'jobs_args.append' and n.args and isinstance(n.args[0], ast.Tuple):
-            for x in n.args[0].elts:
-                x = pf.resolve_expr(fn, x) if isinstance(x, ast.Name) else x
-                if isinstance(x, ast.Call) and pf.dotted(x.func) == 'len' and len(x.args) == 1 and cf.summarise(cf.ListEval(fm, fn).ev(x.args[0])).terms:
-                    count_arg = x.args[0]
-    ctx.need(rows_iter is not None and count_arg is not None, '_create_jobs: the loop that appends the job_parents rows / the len(..) that feeds n_pending_parents not found')
-    findings += cf.check_parent_ids_value(fm, fn, rows_iter, 'list iterated for the job_parents rows')
+    if not prow.problem and len(prow.binders) == 2 and prow.binders[0][2] is jl.loop:
+        rows_iter = prow.binders[1][1]
+    cnt = jl._resolve(jl.row['n_pending_parents']) if 'n_pending_parents' in jl.row else None
+    if isinstance(cnt, ast.Call) and pf.dotted(cnt.func) == 'len' and len(cnt.args) == 1:
+        count_arg = cnt.args[0]
+    ctx.need(rows_iter is not None and count_arg is not None, '_create_jobs: the loop that produces the job_parents rows / the len(..) that feeds n_pending_parents not found')
+    rows_iter, count_arg = jl._through_tuples(rows_iter), jl._through_tuples(count_arg)
+    findings += cf.check_parent_ids_value(S.m, S.fn, rows_iter, 'list iterated for the job_parents rows')
     if pf.nsrc(count_arg) != pf.nsrc(rows_iter):
-        findings += cf.check_parent_ids_value(fm, fn, count_arg, 'list counted for n_pending_parents')
+        findings += cf.check_parent_ids_value(S.m, S.fn, count_arg, 'list counted for n_pending_parents')
     # (a) who touches the keys, and how
     n_sites = 0
     for mod in (vm, fm):
